@@ -260,6 +260,43 @@ def explore_mutants(job: dict) -> dict:
     return col.dump()
 
 
+def sweep_corpus_digits(job: dict) -> dict:
+    """Exhaustive single-digit boundary mutation (each payload hex position set to 0/7/8/F) of up to 3 corpus lines per
+    (verb, code, length) group: every mutant that still decodes is held to the same payload rules."""
+    from vf.env.quiet import quiet_logs
+    from vf.gen import mutate as M
+    from vf.props.c02 import parse_components
+
+    quiet_logs()
+    col = Collector()
+    groups: dict[tuple, list[str]] = {}
+    for ln in M.corpus_pkt_lines():
+        fr = ln[4:]
+        if len(fr) < 48 or len(ln) < 52:
+            continue
+        g = groups.setdefault((fr[:2], fr[37:41], fr[42:45]), [])
+        if len(g) < 3 and ln not in g:
+            g.append(ln)
+    keys = sorted(groups)[job["lo"]::job["step"]]
+    for k in keys:
+        for base in groups[k]:
+            head, pl = base[:50], base[50:].split(" ")[0]
+            for i, ch in enumerate(pl):
+                for r in "078F":
+                    if r == ch:
+                        continue
+                    ln = head + pl[:i] + r + pl[i + 1:]
+                    f = parse_components(ln[4:])
+                    f["line"] = ln
+                    st_, payload, pkt = decode(ln)
+                    col.case(nt=(f["verb"], f["code"], f["payload"]) if st_ == "ok" else None, classes=["digit-sweep", f"digit-sweep-decode:{st_.split(':')[0]}"],
+                             sample={"line": ln, "status": st_})
+                    if st_ == "ok":
+                        check_payload(col, f, payload, pkt)
+    col.note("corpus (verb, code, length) groups swept", len(keys))
+    return col.dump()
+
+
 # --- arrays -----------------------------------------------------------------------------------
 ARRAY_CODES = {
     # code: (element regex tail after the 2-char index, element total hex len, sources [(shape, src type)])
@@ -434,6 +471,7 @@ def run(ctx: Ctx, col: Collector) -> None:
     ctx.parallel(explore_single, [{"lo": a, "hi": min(a + step, npairs), "per_pair": ctx.n(40, 1500)} for a in range(0, npairs, step)], col)
     ctx.parallel(explore_single, ctx.shards(ctx.n(30_000, 1_000_000)), col)
     ctx.parallel(explore_mutants, ctx.shards(ctx.n(24_000, 800_000)), col)
+    ctx.parallel(sweep_corpus_digits, [{"lo": i, "step": ctx.workers} for i in range(ctx.workers)], col)
     ctx.parallel(explore_arrays, ctx.shards(ctx.n(8_000, 300_000)), col)
     ctx.parallel(explore_orders, ctx.shards(ctx.n(640, 16_000), per_shard_min=10), col)
     ctx.floors = [("decode:ok", "", 0.2), ("array:n=2-8", "", 0.03), ("mutant-decode:ok", "mutant", 0.3)]
